@@ -373,7 +373,7 @@ def gen_case(rng, tier, k):
         inst = rng.choice(insts)["name"]
         m = gm[inst]
         env = None
-        if rng.random() < 0.15:
+        if rng.random() < (0.4 if share_env else 0.15):
             env = rng.choice(["E1", "E2"])
         scope = scope_of(inst, env)
         r = rng.random()
@@ -424,10 +424,14 @@ def gen_case(rng, tier, k):
                 nb = rng.randrange(0, 3)
                 na = rng.randrange(0, 3)
                 for _ in range(nb):
-                    stmts.append(gen_state_stmt(scope))
+                    stmts.append(gen_fn(scope) if rng.random() < 0.2
+                                 else gen_state_stmt(scope))
                 stmts.append(gen_fail_stmt())
                 for _ in range(na):
-                    stmts.append(gen_state_stmt(scope))
+                    # definitions (also of functions, also re-definitions)
+                    # after the failing statement must never take effect
+                    stmts.append(gen_fn(scope) if rng.random() < 0.35
+                                 else gen_state_stmt(scope))
             elif kind == "syntax":
                 for _ in range(rng.randrange(0, 3)):
                     stmts.append(gen_state_stmt(scope))
